@@ -132,7 +132,10 @@ func Mutants(filename, src string, ops map[string]bool) []Mutant {
 			if n.Recv != nil {
 				for _, fld := range n.Recv.List {
 					switch t := fld.Type.(type) {
-					case *ast.StarExpr:
+					case *ast.ParenExpr:
+			// one more pair of parentheses around an already parenthesised expression or type
+			add("doubleParen", n.Pos(), "", Edit{off(n.Pos()), off(n.End()), "(" + text(n) + ")"})
+		case *ast.StarExpr:
 						add("parenRecv", t.Pos(), "", Edit{off(t.X.Pos()), off(t.X.End()), "(" + text(t.X) + ")"})
 						add("parenRecvStar", t.Pos(), "", Edit{off(t.Pos()), off(t.End()), "(" + text(t) + ")"})
 					default:
@@ -277,6 +280,9 @@ func Mutants(filename, src string, ops map[string]bool) []Mutant {
 		case *ast.MapType:
 			parenType(n.Key)
 			parenType(n.Value)
+		case *ast.ParenExpr:
+			// one more pair of parentheses around an already parenthesised expression or type
+			add("doubleParen", n.Pos(), "", Edit{off(n.Pos()), off(n.End()), "(" + text(n) + ")"})
 		case *ast.StarExpr:
 			add("parenStarX", n.Pos(), "", Edit{off(n.X.Pos()), off(n.X.End()), "(" + text(n.X) + ")"})
 		case *ast.BinaryExpr:
